@@ -186,7 +186,8 @@ def run_assumption(item):
     from adcgen import Expr
     from vlib.gen import TermGen, consistent_bks
     g = TermGen(rng, spaces="ovg", n_tensors=(2, 3), max_contracted=4, max_target=4,
-                names=["V", "f", "d0", "t1", "t1cc", "t2cc", "t2", "Y", "c"], exclude=())
+                names=["V", "f", "d0", "d0", "t1", "t1cc", "t2cc", "t2", "Y", "c"], exclude=(),
+                exponents=0.3)
     terms = [g.term() for _ in range(rng.randint(1, 2))]
     raw = Add(*terms)
     mode = rng.choice(["real", "sym", "antisym", "ctor"])
@@ -303,7 +304,7 @@ def main():
     tres = pmap(run_tensor, titems, limit=120, chunksize=8)
     ditems = list(product(range(len(POOL)), repeat=2))
     dres = pmap(run_delta, ditems, limit=60, chunksize=8)
-    n_as = 80 if quick else 1500
+    n_as = 200 if quick else 3000
     ares = pmap(run_assumption, [seed() * 1000003 + 600 + k for k in range(n_as)], limit=120)
     for part, results in (("tensor", tres), ("delta", dres), ("assumption", ares)):
         for r in results:
